@@ -166,7 +166,7 @@ def gen_plan(rng, tier, i):
         spec["jpl"] = True
         spec["epoch"][0] = rng.randint(51600, 58700)  # inside the kernel 2000-2020
     hops = []
-    for _ in range(rng.choice([1, 1, 2, 2, 3])):
+    for _ in range(rng.choice([1, 1, 2, 2, 3]) if tier != "thorough" else rng.choice([1, 2, 3, 4, 5])):  # thorough: longer write / read chains
         hops.append({"enc": rng.choice(ENC), "clock": [rng.randint(2000, 2035), rng.randint(1, 12), rng.randint(1, 28), rng.randint(0, 23), rng.randint(0, 59), rng.randint(0, 59), rng.randrange(1000000)], "both": rng.random() < 0.4})
     if kind in ("opm", "omm", "oem") and rng.random() < 0.25:
         # the documented keyword arguments of dump(): they take precedence over what the object carries
